@@ -63,6 +63,7 @@ class TensorV(V):
     dtype: str = "float"  # 'float' | 'int' | 'bool' | 'any'
     lay: tuple | None = None  # per axis: layout.Layout | None  (see sa/layout.py); None = all unknown
     val: tuple | None = None  # index tensors (arange ...): the layout of the index space its *values* enumerate
+    off: tuple | None = None  # per axis: the position (Dim) of this axis' element 0 in the tensor it was sliced from; None = not a slice
 
     def __repr__(self) -> str:
         return "T" + fmt_shape(self.shape)
@@ -297,6 +298,28 @@ class State:
                         return True
                     if neg[op] in implies[qqop]:
                         return False
+        # integer reasoning with a constant offset:  p = qq + k  and  qq op' 0  bound p
+        inf = float("inf")
+        for q, qop in self.lits:
+            q = self.norm(q)
+            for qq, qqop in ((q, qop), (-q, flip[qop])):
+                k = (p - qq).as_int()
+                if k is None:
+                    continue
+                plo, phi = {">": (1 + k, inf), ">=": (k, inf), "<": (-inf, k - 1), "<=": (-inf, k), "==": (k, k)}.get(qqop, (-inf, inf))
+                plo, phi = max(plo, lo), min(phi, hi)
+                t2 = {
+                    "==": (plo == phi == 0, plo > 0 or phi < 0),
+                    "!=": (plo > 0 or phi < 0, plo == phi == 0),
+                    ">": (plo > 0, phi <= 0),
+                    ">=": (plo >= 0, phi < 0),
+                    "<": (phi < 0, plo >= 0),
+                    "<=": (phi <= 0, plo > 0),
+                }[op]
+                if t2[0]:
+                    return True
+                if t2[1]:
+                    return False
         return None
 
     def assume(self, lit: tuple) -> bool:
@@ -1229,6 +1252,8 @@ class Interp:
         if isinstance(l, TensorV) or isinstance(r, TensorV):
             if isinstance(op, ast.MatMult):
                 return self.ops.matmul(self, l, r, st, node)
+            if isinstance(op, ast.Mult):
+                self.ops.note_ramp_product(self, l, r, st, node)
             return self.ops.broadcast_values(self, [l, r], st, None, node)
         if isinstance(l, IntV) and isinstance(r, IntV):
             a, b = st.norm(l.d), st.norm(r.d)
